@@ -91,15 +91,24 @@ def b_memset(E, st, fr, ins, args):
 
 def b_memcmp(E, st, fr, ins, args):
     a, b, n = _int(args[0], 'memcmp'), _int(args[1], 'memcmp'), _int(args[2], 'memcmp length')
+    eqs = []
     for i in range(n):
         x = E.load(st, a + i, F.I8)
         y = E.load(st, b + i, F.I8)
         if type(x) is not int or type(y) is not int:
             if x is UNDEF or y is UNDEF:
                 raise PathEnd('uninit', 'memcmp reads uninitialised bytes')
-            raise EncodingLimit('memcmp on symbolic bytes')
+            eqs.append(to_bv(x, 8) == to_bv(y, 8))
+            continue
         if x != y:
+            if eqs:
+                # ordering undecided by symbolic earlier bytes: only (in)equality is modelled -> non-zero
+                return z3.If(z3.And(*eqs), z3.BitVecVal((1 if x > y else -1) & 0xffffffff, 32), z3.BitVecVal(1, 32))
             return (1 if x > y else -1) & 0xffffffff
+    if eqs:
+        # symbolic bytes: the result is 0 iff all of them agree (sign of a non-zero result is not modelled; the callers
+        # in this code base only test for equality - std::equal / dynamic_bitset::operator==)
+        return z3.If(z3.And(*eqs), z3.BitVecVal(0, 32), z3.BitVecVal(1, 32))
     return 0
 
 
